@@ -141,6 +141,12 @@ def shapes(tier="quick"):
     # enum with require_static field inside a variant, pointer in the last variant's last field
     out.append(Shape(name(), "enum", [("A", "tuple", [("S", True), ("G", False)]), ("B", "named", [("I", False), ("I", False), ("W", False)])]))
     out.append(Shape(name(), "enum", [("A", "unit", []), ("B", "unit", []), ("C", "tuple", [("I", False), ("I", False), ("I", False), ("G", False)])]))
+    # a require_static field at position i of one variant, a pointer at the same position of another (both orders)
+    for pos in (0, 1):
+        a = [("S", True) if i == pos else ("I", False) for i in range(2)]
+        b = [("G", False) if i == pos else ("I", False) for i in range(2)]
+        out.append(Shape(name(), "enum", [("A", "tuple", list(a)), ("B", "tuple", list(b))]))
+        out.append(Shape(name(), "enum", [("A", "named", list(b)), ("B", "named", list(a)), ("C", "unit", [])]))
     # modes
     out.append(Shape(name(), "struct", [("", "named", [("G", False), ("I", False)])], mode="unsafe_drop"))
     out.append(Shape(name(), "enum", [("A", "tuple", [("W", False)]), ("B", "unit", [])], mode="unsafe_drop"))
@@ -224,9 +230,12 @@ def build(tier="quick", repo=None):
     repo = repo or facts.REPO
     facts.ensure_driver()
     th = facts.tree_hash(repo)
-    d = os.path.join(facts.CACHE, th, "corpus2-" + tier)
-    os.makedirs(d, exist_ok=True)
     shp = shapes(tier)
+    # the cache entry is keyed by the generated source as well: a changed shape list must not reuse old facts
+    import hashlib
+    src_hash = hashlib.sha256((PRELUDE + repr(sorted(FT.items())) + "".join(s.render() for s in shp)).encode()).hexdigest()[:12]
+    d = os.path.join(facts.CACHE, th, "corpus-%s-%s" % (tier, src_hash))
+    os.makedirs(d, exist_ok=True)
     fact = os.path.join(d, "out", "corpus.json")
     with open(os.path.join(d, "lock"), "w") as lk:
         fcntl.flock(lk, fcntl.LOCK_EX)
